@@ -448,9 +448,15 @@ def check_C11(report, tier, seed, replay=None):
                     else:
                         fs.updatefilter(nm, rng.choice(pool), conds, acts)
                 elif kind == "replace":
-                    tmp = factory.FiltersSet("tmp")
-                    tmp.addfilter("x", [gen_condition(rng, C19_VALUES)], [gen_action(rng, C19_VALUES, simple=True)])
-                    fs.replacefilter(nm, tmp.getfilter("x"), rng.choice([None, rng.choice(pool)]),
+                    # the replacement is built by the SAME set (add, getfilter, remove), as the docstring of
+                    # replacefilter says ("the sieve_filter object as get from FiltersSet.getfilter()"): a command
+                    # built by another set would leave this set's requires unaware of the extensions it uses,
+                    # which is a misuse of the API, not a defect (false alarm corrected, DESIGN.md section 12)
+                    scratch = "\x00scratch"
+                    fs.addfilter(scratch, [gen_condition(rng, C19_VALUES)], [gen_action(rng, C19_VALUES, simple=True)])
+                    obj = fs.getfilter(scratch)
+                    fs.removefilter(scratch)
+                    fs.replacefilter(nm, obj, rng.choice([None, rng.choice(pool)]),
                                      rng.choice([None, "", rng.choice(C11_NAMES)]))
                 elif kind == "disable":
                     fs.disablefilter(nm)
